@@ -328,7 +328,7 @@ func cmdConcStress(args []string) int {
 		var recipe Recipe
 		switch k % 5 {
 		case 0:
-			recipe = Recipe{{M: "UGCPolicy"}, {M: "AllowStyles", Props: []string{"color", "font-size"}, Scope: "glob"}, {M: "AllowDataURIImages"}}
+			recipe = Recipe{{M: "UGCPolicy"}, {M: "AllowStyles", Props: []string{"color", "font-size", "border", "font", "background", "animation"}, Scope: "glob"}, {M: "AllowDataURIImages"}}
 		case 1:
 			recipe = Recipe{{M: "NewPolicy"}, {M: "AllowElementsMatching", Pat: ".*"}, {M: "AllowAttrs", Attrs: []string{"class", "style"}, Scope: "pat", Pat: "^c"},
 				{M: "AllowAttrs", Attrs: []string{"class", "title"}, Scope: "pat", Pat: "x$", Match: "re:^[a-z]+$"},
@@ -353,7 +353,10 @@ func cmdConcStress(args []string) int {
 		}
 		model, real, twin := BuildAP(recipe), BuildReal(recipe), BuildReal(recipe)
 		inputs := [][]byte{[]byte(`<p class="pp">1</p><span class="ss">2</span><p class="ss">3</p><span class="pp">4</span><b class="aa">5</b>`),
-			[]byte(`<span class="pp">x</span><p class="ss">y</p><p class="bb">z</p>`)}
+			[]byte(`<span class="pp">x</span><p class="ss">y</p><p class="bb">z</p>`),
+			// shorthand values of several components: long validations that overlap when many goroutines run
+			[]byte(`<p style="border: 1px solid red; font: italic bold 12px serif; background: red none repeat scroll top left; animation: ease 1s 1 normal none">s</p>` +
+				`<span style="border: thin dotted #fff; font: normal small-caps bold 10px serif; background: #fff">t</span>`)}
 		for i := 0; i < *inputsN; i++ {
 			_, b := GenDoc(rng, model, []int{0, 1, 3, 4, 6, 8}[rng.Intn(6)])
 			inputs = append(inputs, b)
